@@ -23,7 +23,7 @@ import (
 // call against the reference state machine (model.CheckRegistryTrace).
 
 type RegOp struct {
-	Kind  string   `json:"k"` // addF | get | getE | inC | create
+	Kind  string   `json:"k"` // addF | get | getE | inC | create | pub (the factory publishes its own name itself: AddSingleton)
 	Name  string   `json:"n"`
 	Child *RegNode `json:"c,omitempty"`
 	// EarlyOther: the early-reference factory returns a different object than the final one
@@ -80,7 +80,10 @@ func genRegTree(r *rand.Rand) *RegTree {
 			case x < 5:
 				n.Ops = append(n.Ops, RegOp{Kind: "get", Name: target, Tolerate: tol})
 			case x < 6:
-				if r.IntN(3) == 0 {
+				if r.IntN(4) == 0 {
+					// the factory publishes the object it is building under its own name itself
+					n.Ops = append(n.Ops, RegOp{Kind: "pub", Name: name})
+				} else if r.IntN(3) == 0 {
 					// the factory registers its early-reference factory once more (same product)
 					n.Ops = append(n.Ops, RegOp{Kind: "addF", Name: name})
 				} else {
@@ -172,6 +175,8 @@ func runRegCase(c *regCase) (calls []model.RegCall, panicMsg string) {
 					}
 				case "inC":
 					tr.IsSingletonCurrentlyInCreation(op.Name)
+				case "pub":
+					tr.AddSingleton(n.Name, final)
 				case "create":
 					if _, err := create(op.Child); err != nil && !op.Tolerate {
 						return nil, err
